@@ -20,6 +20,10 @@ The observable history of one partition (events of the other partitions projecte
   the reply, once; `flush()` / `stop()` return only when every record accepted before the call is
   resolved.
 
+A transactional producer is an idempotent producer here (same producer id / epoch / sequence
+numbers across its transactions); AddPartitionsToTxn / EndTxn are environment, their only trace in a
+partition history is `Ev.marker`: the coordinator's COMMIT / ABORT marker takes one offset of the log.
+
 The broker side (`Broker`) is Kafka's idempotent append (DESIGN.md Appendix F); the simulator's
 decisions are re-derived here and a disagreement is a harness error (`Rej.env`), never a finding.
 -/
@@ -118,6 +122,10 @@ def Broker.check (b : Broker) (base : Int) (n : Nat) : Decision :=
     | none =>
       if base = b.expected then .append b.log.length else b.refuse (seqAdd base (n - 1))
 
+/-- a transaction marker (control batch) written by the transaction coordinator: it occupies one
+    offset of the partition log; `tt = 2` distinguishes it from data records (`tt` 0 / 1) -/
+def markerRec : LogRec := { id := 0, ts := 0, tt := 2 }
+
 /-- records as stored: the caller's timestamp on a CreateTime topic (`ats = -1`), else the
     append time -/
 def storeRec (ats : Int) (r : Rec) : LogRec :=
@@ -215,6 +223,7 @@ inductive Ev where
   | resolved (id : Nat) (r : Res)
   | waitCall (k : Nat)
   | waitRet (k : Nat)
+  | marker (off : Int)     -- Env: the transaction coordinator appended a COMMIT / ABORT marker at `off`
 deriving Repr, DecidableEq, Inhabited
 
 abbrev R := Except Rej St
@@ -379,6 +388,10 @@ def onWaitRet (s : St) (k : Nat) : R :=
   | none => .error (.env .badWaitId)
   | some m => if s.unres.all (fun id => m.2 ≤ id) then .ok s else .error (.client .flushEarly)
 
+def onMarker (s : St) (off : Int) : R :=
+  if off = s.br.log.length then .ok { s with br := { s.br with log := s.br.log ++ [markerRec] } }
+  else .error (.env .brokerDecision)
+
 def step (c : Cfg) (s : St) : Ev → R
   | .acc t i u => onAcc s t i u
   | .send pid epoch seq ids => onSend c s pid epoch seq ids
@@ -387,6 +400,7 @@ def step (c : Cfg) (s : St) : Ev → R
   | .resolved id r => onResolved c s id r
   | .waitCall k => onWaitCall s k
   | .waitRet k => onWaitRet s k
+  | .marker off => onMarker s off
 
 def run (c : Cfg) (s : St) : List Ev → R
   | [] => .ok s
@@ -411,7 +425,10 @@ def runAt (c : Cfg) : St → List Ev → Nat → Except (Nat × Rej) St
 
 /-! ## the property evaluated on observations (what the implementation and the cluster did) -/
 
-def logIds (s : St) : List Nat := s.br.log.map (·.id)
+/-- the data records of the log (markers left out), by record id -/
+def dataIds (log : List LogRec) : List Nat := (log.filter (fun x => x.tt != 2)).map (·.id)
+
+def logIds (s : St) : List Nat := dataIds s.br.log
 
 /-- the partition log in terms of batches: each first transmission, repeated as often as appended -/
 def rep : Nat → List Nat → List Nat
